@@ -60,6 +60,9 @@ func GenLooseReg(t *rapid.T, id int, hostile bool) Reg {
 		}
 	case FormVoid:
 		r.Life = Scoped
+		if rapid.IntRange(0, 1).Draw(t, "voidname") == 0 {
+			r.Name = "a" // a named initializer: removable (and colliding) like any keyed service
+		}
 	}
 	if r.Form != FormInstance && rapid.IntRange(0, 3).Draw(t, "hasdeps") == 0 {
 		n := rapid.IntRange(1, 2).Draw(t, "ndeps")
